@@ -11,6 +11,28 @@ import vlib
 LEVEL = "proof"
 
 THEOREMS = [
+    "Mpc.C12_fold_eq_circuit_partial",
+    "Mpc.C12_fold_wrap_ops",
+    "Mpc.C12_fold_wrap_assignable",
+    "Mpc.C12_fold_add_partial",
+    "Mpc.C12_add_carry_lost_witness",
+    "Mpc.C12_fold_shl",
+    "Mpc.C12_fold_shr_partial",
+    "Mpc.C12_shr_witness",
+    "Mpc.C12_fold_div_mod_partial",
+    "Mpc.C12_div_mod_masked_operands_witness",
+    "Mpc.C12_fold_cmp_partial",
+    "Mpc.C12_cmp_sign_from_size_witness",
+    "Mpc.C12_fold_neg",
+    "Mpc.C12_fold_bool_ops",
+    "Mpc.C12_operand_cast_witness",
+    "Mpc.C12_result_type_widened_witness",
+    "Mpc.C12_result_minbits_witness",
+    "Mpc.C12_refold_shr_witness",
+    "Mpc.C12_no_crash_small",
+    "Mpc.C12_crash_wide_witness",
+    "Mpc.C12_wide_witnesses",
+    "Mpc.Fold.constantMpa_ok",
 ]
 
 # operator -> mpa method table of Binary.evalConst (T2 fact)
